@@ -201,6 +201,21 @@ def parseCands (s : String) : Option (List (String × Expr × Faults)) :=
     | [n, e, f] => do pure (n, ← parseExprHex e, ← parseFaults f)
     | _ => none) (sect s "+")
 
+/-- `<k>:<hex(atom)>` then `A:<k>:<hex(atom)>` / `O:<k>:<hex(atom)>`, joined by `,` -/
+def parseFlat (s : String) : Option ((Nat × Expr) × List (BinOp × Nat × Expr)) :=
+  match s.splitOn "," with
+  | [] => none
+  | f :: rest => do
+    let first ← (match f.splitOn ":" with
+      | [k, e] => do pure (← k.toNat?, ← parseExprHex e)
+      | _ => none)
+    let rest ← mapM? (fun t => match t.splitOn ":" with
+      | [o, k, e] => do
+        let op ← (if o == "A" then some BinOp.and else if o == "O" then some BinOp.or else none)
+        pure (op, ← k.toNat?, ← parseExprHex e)
+      | _ => none) rest
+    pure (first, rest)
+
 /-! ### rendering -/
 
 def showOp : RangeOp → String
@@ -258,6 +273,18 @@ def showExpr : Expr → String
   | .not e => "NOT (" ++ showExpr e ++ ")"
   | .and a b => "(" ++ showExpr a ++ ") AND (" ++ showExpr b ++ ")"
   | .or a b => "(" ++ showExpr a ++ ") OR (" ++ showExpr b ++ ")"
+
+def isAtom : Expr → Bool
+  | .not _ | .and _ _ | .or _ _ => false
+  | _ => true
+
+def showAtom (e : Expr) : String := if isAtom e then showExpr e else "(" ++ showExpr e ++ ")"
+
+/-- an operator sequence without any parentheses around the operands -/
+def showFlat (first : Nat × Expr) (rest : List (BinOp × Nat × Expr)) : String :=
+  let item := fun (x : Nat × Expr) => String.join (List.replicate x.1 "NOT ") ++ showAtom x.2
+  item first ++ String.join (rest.map fun (op, x) =>
+    (match op with | .and => " AND " | .or => " OR ") ++ item x)
 
 def showItem (name : String) : Item → String
   | .asn a => s!"AS{a}"
@@ -379,6 +406,16 @@ def spec11 (db : Db) (fuel : Nat) (e : Expr) (probes : List Pfx) (obs : String) 
     else if obs.startsWith "err=" then "violation spurious-error"
     else "violation wrong-set"
 
+/-- C11, operator precedence: the observed result of evaluating an unparenthesised sequence against
+the RFC 2622 reading of it -/
+def specPrec (db : Db) (fuel : Nat) (first : Nat × Expr) (rest : List (BinOp × Nat × Expr))
+    (probes : List Pfx) (obs : String) : String :=
+  let want := showOutcome probes (evaluate .fixed db fuel (parseRfc first rest) [] Ev.fresh).1
+  if obs == want ∨ (obs.startsWith "err=" ∧ want.startsWith "err=") then "ok"
+  else
+    let crate := showOutcome probes (evaluate .fixed db fuel (parseCrate first rest) [] Ev.fresh).1
+    if obs == crate then "violation operator-precedence" else "violation wrong-set"
+
 /-- C17: observed outcomes after a history vs. on a fresh evaluator -/
 def spec17 (hist fresh : List String) : String :=
   if hist.any (· == "err=acquire") then "violation evaluator-unusable"
@@ -438,6 +475,24 @@ def drive : List String → Option String
     let e ← parseExprHex e
     let probes ← parseProbes probes
     pure (spec11 db fuel e probes obs)
+  | ["flattext", fl] => do
+    let (first, rest) ← parseFlat fl
+    pure (hexStr (showFlat first rest))
+  /- the code's reading of an unparenthesised sequence, evaluated -/
+  | ["evalflat", cfg, db, fuel, fl, probes] => do
+    let cfg ← parseCfg cfg
+    let db ← parseDb db
+    let fuel ← fuel.toNat?
+    let (first, rest) ← parseFlat fl
+    let probes ← parseProbes probes
+    let (o, _, ev) := evaluate cfg db fuel (parseCrate first rest) [] Ev.fresh
+    pure s!"{showOutcome probes o}/{showSent ev}"
+  | ["specprec", db, fuel, fl, probes, obs] => do
+    let db ← parseDb db
+    let fuel ← fuel.toNat?
+    let (first, rest) ← parseFlat fl
+    let probes ← parseProbes probes
+    pure (specPrec db fuel first rest probes obs)
   | ["spec17", hist, fresh] => pure (spec17 (hist.splitOn ";") (fresh.splitOn ";"))
   | ["spec15", db, fuel, cands, probes, obs1, obs2] => do
     let db ← parseDb db
